@@ -109,6 +109,7 @@ Definition B_NOT_ONLIST := 2.      (* nni_sock_remove_dialer: NNI_ASSERT(nni_lis
 Definition B_USE_FREED := 3.       (* an action touches an object that was destroyed *)
 Definition B_FIND_FREED := 4.      (* a find returned a destroyed object (stale id in the map) *)
 Definition B_SOCK_FREED := 5.      (* ctx_fini after the socket was destroyed *)
+Definition B_DOUBLE_REAP := 6.     (* an endpoint is handed to the reaper twice *)
 
 Record st := mkSt {
   sk : sockst; ctxs : list ctxst; eps : list epst; pipes : list pipest;
@@ -497,7 +498,8 @@ Definition run_act (fx : fixes) (s : st) (a : act) : option (st * list act) :=
                | O => Some (add_bad s B_REF_UNDERFLOW, [])
                | S n =>
                    if (n =? 0) && e_closed x then
-                     Some (set_rq (set_eps s (upd (eps s) e (fun x => eset_reapq (eset_ref x n)))) (rq s ++ [REp e]), [])
+                     if e_reapq x then Some (add_bad s B_DOUBLE_REAP, [])    (* queued for the reaper a second time *)
+                     else Some (set_rq (set_eps s (upd (eps s) e (fun x => eset_reapq (eset_ref x n)))) (rq s ++ [REp e]), [])
                    else Some (set_eps s (upd (eps s) e (fun x => eset_ref x n)), [])
                end
       | None => Some (s, [])
